@@ -135,6 +135,9 @@ func finish(prop, tier string, seed int64, c Check, a *agg, nUnits int, wall flo
 	}
 
 	if learn {
+		for _, e := range engineErrs {
+			fmt.Println("ENGINE-ERROR:", firstN(e, 1500))
+		}
 		var out []KnownFinding
 		for _, f := range violations {
 			out = append(out, KnownFinding{Property: prop, Signature: f.Sig, Status: "known", What: f.Detail, Witness: f.Replay})
